@@ -725,12 +725,9 @@ fn main() {
         }
         if let Ok(mut g) = PANIC_FN.try_lock() {
             // symbolising the stack is the harness's time, not the reader's
-            let (c0, w0) = (alloc::cpu_ns(), alloc::wall_ms());
             let saved = alloc::suspend();
             *g = frame_cached();
             alloc::resume(saved);
-            alloc::CPU0.fetch_add(alloc::cpu_ns().saturating_sub(c0), std::sync::atomic::Ordering::Relaxed);
-            alloc::WALL0.fetch_add(alloc::wall_ms().saturating_sub(w0), std::sync::atomic::Ordering::Relaxed);
         }
     }));
     match args.driver.as_str() {
